@@ -14,7 +14,7 @@ Fixpoint parse_packets (ts : list bytes) : option (list rpacket * list bytes) :=
   | [] => None
   | t :: r =>
       if bytes_eqb t (bs "S") then Some ([], r) else
-      match split_on ":"%byte t, parse_packets r with
+      match fsplit_on ":"%byte t, parse_packets r with
       | [c; tok; _], Some (ps, rest) => match read_N c with Some n => Some ((n, tok) :: ps, rest) | None => None end
       | _, _ => None end
   end.
@@ -29,7 +29,7 @@ Fixpoint parse_sched (ts : list bytes) : option (list sched) :=
   end.
 
 Definition run_line (l : bytes) : bytes :=
-  match split_on sp l with
+  match fsplit_on sp l with
   | _ :: _ :: w :: _ :: _ :: _ :: _ :: p :: rest =>
       match read_N w, parse_packets rest with
       | Some workers, Some (tr, srest) =>
